@@ -14,9 +14,10 @@ EXTENDS NodeConfig
 VARIABLE kind
 svars == <<ndelay, ndist, conns, hist, kind>>
 
-Kinds == {"connect", "setnode", "setconn", "roundtrip"}
+Kinds == {"connect", "reconnect", "setnode", "setconn", "roundtrip"}
 KindEnabled(k) ==
   CASE k = "connect" -> \E dst, src \in Nodes : src # dst /\ ~\E c \in conns : c.src = src /\ c.dst = dst
+    [] k = "reconnect" -> conns # {}
     [] k = "setnode" -> TRUE
     [] k = "setconn" -> conns # {}
     [] k = "roundtrip" -> \A n \in Nodes : ~Loop(n)
@@ -28,6 +29,7 @@ Pick == /\ kind = "pick" /\ Len(hist) < MaxLen
 Do == /\ kind # "pick" /\ kind' = "pick"
       /\ CASE kind = "connect" -> \E dst, src \in Nodes, skip, shadow, blocking \in BOOLEAN, d \in Delays, dist \in Dists, w \in 1..2 :
                                       Connect(dst, src, skip, d, dist, shadow, w, blocking)
+           [] kind = "reconnect" -> \E c \in conns, skip, blocking \in BOOLEAN, d \in Delays, dist \in Dists, w \in 1..2 : Reconnect(c, skip, d, dist, w, blocking)
            [] kind = "setnode" -> \E n \in Nodes, dist \in Dists \cup {"keep"}, d \in Delays \cup {-1} : SetNodeDelay(n, dist, d)
            [] kind = "setconn" -> \E c \in conns, dist \in Dists \cup {"keep"}, d \in Delays \cup {-1} : SetConnDelay(c, dist, d)
            [] kind = "roundtrip" -> RoundTrip
